@@ -26,7 +26,7 @@ import weave  # noqa: E402
 
 BUILD = os.path.join(VERIF, "build")
 SLICE = os.path.join(VERIF, "kani", "slice")
-HARN = os.path.join(VERIF, "kani", "harness")
+HARN = os.path.join(VERIF, "kani", "harness")  # registry is read from the sources; builds use the snapshot
 EVID = os.path.join(VERIF, "evidence")
 KNOWN = os.path.join(VERIF, "known_findings.txt")
 ENV = dict(os.environ, CARGO_NET_OFFLINE="true", CARGO_TERM_COLOR="never")
